@@ -332,78 +332,14 @@ for need in ("SIGSEGV", "SIGBUS"):
 if "SI_KERNEL" not in lsi:
     die("no numeric value for ExceptionCodeLinuxSicode::SI_KERNEL")
 
-# ------------------------------------------------------------------ try_bit_flips skeleton
-tb = norm(fn_body(pr, r"pub fn try_bit_flips\(\s*address: u64,\s*source_register: Option<&'static str>,\s*bit_range: BitRange,\s*"
-                      r"exception_context: Option<&MinidumpContext>,\s*memory_info: &UnifiedMemoryInfoList,\s*"
-                      r"memory_operation: MemoryOperation,\s*\) -> Vec<PossibleBitFlip>\s*\{", "try_bit_flips"))
-TB = ("let mut addresses = Vec::new(); if let Some(mi) = memory_info.memory_info_at_address(address) { "
-      "if memory_operation.is_possibly_allowed_for(&mi) { return addresses; } } "
-      "let create_possible_address = |new_address: u64| { let mut ret = PossibleBitFlip::new(new_address, source_register); "
-      "ret.calculate_heuristics( address, bit_range == BitRange::Amd64NonCanonical, exception_context, ); ret }; "
-      "for i in bit_range.range() { let possible_address = address ^ (1 << i); "
-      "if possible_address == 0 { addresses.push(create_possible_address(possible_address)); } "
-      "if let Some(mi) = memory_info.memory_info_at_address(possible_address) { "
-      "if memory_operation.is_possibly_allowed_for(&mi) { addresses.push(create_possible_address(possible_address)) } } } addresses")
-if tb != TB:
-    die("bitflip::try_bit_flips body changed; coq/C19/Model.v (try_bit_flips, flips_loop) must be re-read against it:\n" + tb)
-
-# ------------------------------------------------------------------ adjusted address (get_exception_details and helpers)
-ged = norm(fn_body(pr, r"pub fn get_exception_details\(&self\) -> Option<ExceptionDetails<'a>>\s*\{", "get_exception_details"))
-GED = ("Ok(op_analysis) => { let access_addresses = op_analysis.memory_access_list.as_ref().map(|access_list| { access_list .iter() "
-       ".map(|access| access.address_info) .collect::<Vec<MemoryAddressInfo>>() }); "
-       "let addresses = access_addresses.map(|mut accesses| { match op_analysis.instruction_pointer_update { "
-       "Some(InstructionPointerUpdate::Update { address_info }) => { accesses.push(address_info); accesses } _ => accesses, } }); "
-       "let addresses = addresses.as_deref(); "
-       "let adjusted_address = try_detect_null_pointer_in_disguise(addresses) "
-       ".map(|offset| AdjustedAddress::NullPointerWithOffset(offset.into())) .or_else(|| { "
-       "try_get_non_canonical_crash_address( &self.system_info, addresses, reason, address, ) "
-       ".map(|addr| AdjustedAddress::NonCanonical(addr.into())) }); "
-       "instruction_registers.clone_from(&op_analysis.registers); "
-       "exception_info = Some(crate::ExceptionInfo::with_op_analysis( reason, address.into(), adjusted_address, op_analysis, )); } "
-       "Err(e) => { tracing::warn!(\"failed to analyze the thread context: {e}\"); }")
-if GED not in ged:
-    die("get_exception_details: the adjusted-address computation changed; coq/C19/Pipeline.v (adjusted_of) must be re-read against it:\n" + ged)
-for piece in ("let mut exception_info: Option<crate::ExceptionInfo> = None; let mut instruction_registers: BTreeSet<&'static str> = Default::default(); "
-              "if let Some(context) = context.as_ref() { match crate::op_analysis::analyze_thread_context(",
-              "let info = exception_info.unwrap_or_else(|| crate::ExceptionInfo::new(reason, address.into())); "
-              "Some(ExceptionDetails { info, context, instruction_registers, })"):
-    if piece not in ged:
-        die("get_exception_details: changed around the op-analysis call / the result record:\n" + ged)
-nw = norm(fn_body(pr, r"fn new\(reason: CrashReason, address: crate::Address\) -> Self\s*\{", "ExceptionInfo::new"))
-if "adjusted_address: None," not in nw:
-    die("ExceptionInfo::new no longer sets adjusted_address: None")
-
-nd = norm(fn_body(pr, r"fn try_detect_null_pointer_in_disguise\(\s*memory_addresses: Option<&\[MemoryAddressInfo\]>,\s*\) -> Option<u64>\s*\{", "try_detect_null_pointer_in_disguise"))
-if nd != ("if let Some(memory_addresses) = memory_addresses { for access in memory_addresses.iter() { "
-          "if access.is_likely_null_pointer_dereference { return Some(access.address); } } } None"):
-    die("try_detect_null_pointer_in_disguise changed:\n" + nd)
-
+# ------------------------------------------------------------------ try_bit_flips, the adjusted-address helpers, the GPF arms
+# (until round 5, second pass, pinned textually here) are now COMPILED to Gallina by translate/c19_src.py -> Gen/C19Src.v.
+# This translator keeps the NON_CANONICAL_RANGE constant and the GPF constants.
 nc = norm(fn_body(pr, r"fn try_get_non_canonical_crash_address\(", "try_get_non_canonical_crash_address"))
-m = re.fullmatch(r"use system_info::Cpu; const NON_CANONICAL_RANGE: RangeInclusive<u64> = (0x[0-9a-fA-F_]+)\.\.=(0x[0-9a-fA-F_]+); "
-                 r"if system_info\.cpu != Cpu::X86_64 \{ return None; \} "
-                 r"if !represents_general_protection_fault\(system_info\.os, reason, address\) \{ return None; \} "
-                 r"if memory_addresses\.is_none\(\) \{ tracing::warn!\( \"[^\"]*\" \); return None; \} "
-                 r"for access in memory_addresses\.unwrap\(\)\.iter\(\) \{ if NON_CANONICAL_RANGE\.contains\(&access\.address\) \{ return Some\(access\.address\); \} \} "
-                 r"tracing::warn!\( r#\".*?\"# \); None", nc)
+m = re.search(r"const NON_CANONICAL_RANGE: RangeInclusive<u64> = (0x[0-9a-fA-F_]+)\.\.=(0x[0-9a-fA-F_]+); ", nc)
 if not m:
-    die("try_get_non_canonical_crash_address changed:\n" + nc)
+    die("try_get_non_canonical_crash_address: NON_CANONICAL_RANGE not found:\n" + nc)
 nc_lo, nc_hi = int(m.group(1).replace("_", ""), 16), int(m.group(2).replace("_", ""), 16)
-
-gp = norm(fn_body(pr, r"fn represents_general_protection_fault\(", "represents_general_protection_fault"))
-m = re.fullmatch(r"use minidump_common::errors as minidump_errors; use system_info::Os; "
-                 r"const SI_KERNEL_U32: u32 = minidump_errors::ExceptionCodeLinuxSicode::SI_KERNEL as u32; "
-                 r"match \(os, reason, address\) \{ (.*) \(_, _, _\) => \{ tracing::warn!\(\"[^\"]*\"\); false \} \}", gp)
-if not m:
-    die("represents_general_protection_fault changed shape:\n" + gp)
-GPF_ARMS = ("( Os::Windows, CrashReason::WindowsAccessViolation( minidump_errors::ExceptionCodeWindowsAccessType::READ, ), u64::MAX, ) => true, "
-            "(Os::Windows, _, _) => false, "
-            "( Os::MacOs, CrashReason::MacBadAccessX86( minidump_errors::ExceptionCodeMacBadAccessX86Type::EXC_I386_GPFLT, ), 0, ) => true, "
-            "(Os::MacOs, _, _) => false, "
-            "( Os::Linux, CrashReason::LinuxGeneral(minidump_errors::ExceptionCodeLinux::SIGSEGV, SI_KERNEL_U32), 0, ) => true, "
-            "( Os::Linux, CrashReason::LinuxGeneral(minidump_errors::ExceptionCodeLinux::SIGBUS, SI_KERNEL_U32), 0, ) => true, "
-            "(Os::Linux, _, _) => false,")
-if m.group(1) != GPF_ARMS:
-    die("represents_general_protection_fault: the match arms changed; coq/C19/Pipeline.v (is_gpf) must be re-read:\n" + m.group(1))
 
 # ------------------------------------------------------------------ confidence(): the whole body as a list of steps
 cf = norm(fn_body(ps, r"pub fn confidence\(&self\) -> f32\s*\{", "confidence"))
@@ -497,36 +433,9 @@ def idx_expr(s):
 
 index = idx_expr(idx)
 
-# ------------------------------------------------------------------ calculate_heuristics skeleton (constants: bitflip_consts.py)
-ch = norm(fn_body(ps, r"pub fn calculate_heuristics\(\s*&mut self,\s*original_address: u64,\s*was_non_canonical: bool,\s*"
-                      r"context: Option<&MinidumpContext>,\s*\)\s*\{", "calculate_heuristics"))
-CH = (r"self\.details\.is_null = self\.address\.0 == 0; "
-      r"self\.details\.was_low = self\.details\.is_null && original_address <= LOW_ADDRESS_CUTOFF; "
-      r"self\.details\.was_non_canonical = was_non_canonical; "
-      r"self\.details\.nearby_registers = 0; self\.details\.poison_registers = false; "
-      r"if let Some\(context\) = context \{ let register_size = context\.register_size\(\); "
-      r"let is_repeated = match register_size \{ 2 => \|addr: u64\| addr == \(addr & 0xff\) \* 0x[0-9a-f]+, "
-      r"4 => \|addr: u64\| addr == \(addr & 0xff\) \* 0x[0-9a-f]+, 8 => \|addr: u64\| addr == \(addr & 0xff\) \* 0x[0-9a-f]+, "
-      r"other => \{ tracing::warn!\(\"unsupported register size: \{other\}\"\); \|_\| false \} \}; "
-      r"let should_calculate_nearby_registers = self\.address\.0 > LOW_ADDRESS_CUTOFF; "
-      r"for \(_, addr\) in context\.valid_registers\(\) \{ "
-      r"if should_calculate_nearby_registers && self\.address\.0\.abs_diff\(addr\) <= NEARBY_REGISTER_DISTANCE \{ self\.details\.nearby_registers \+= 1; \} "
-      r"if !self\.details\.poison_registers && is_repeated\(addr\) \{ match \(addr & 0xff\) as u8 \{ "
-      r"(?:\|? ?0x[0-9a-fA-F]{2} ?)+=> \{ self\.details\.poison_registers = true; \} _ => \(\), \} \} \} \} "
-      r"self\.confidence = Some\(self\.details\.confidence\(\)\);")
-if not re.fullmatch(CH, ch):
-    die("calculate_heuristics body changed; coq/C19/Model.v (heuristics) must be re-read against it:\n" + ch)
-
-# ------------------------------------------------------------------ MinidumpException::get_crash_address (minidump crate)
+# ------------------------------------------------------------------ calculate_heuristics and MinidumpException::get_crash_address
+# are compiled by translate/c19_src.py (Gen/C19Src.v: g_h_*, g_crash_address); here only the two Windows exception codes
 mdrs = rd("minidump/src/minidump.rs")
-gca = norm(fn_body(mdrs, r"pub fn get_crash_address\(&self, os: Os, cpu: Cpu\) -> u64\s*\{", "get_crash_address"))
-GCA = ("let addr = match ( os, err::ExceptionCodeWindows::from_u32(self.raw.exception_record.exception_code), ) { "
-       "(Os::Windows, Some(err::ExceptionCodeWindows::EXCEPTION_ACCESS_VIOLATION)) | "
-       "(Os::Windows, Some(err::ExceptionCodeWindows::EXCEPTION_IN_PAGE_ERROR)) if self.raw.exception_record.number_parameters >= 2 => { "
-       "self.raw.exception_record.exception_information[1] } _ => self.raw.exception_record.exception_address, }; "
-       "match cpu.pointer_width() { PointerWidth::Bits32 => addr as u32 as u64, _ => addr, }")
-if gca != GCA:
-    die("MinidumpException::get_crash_address changed; coq/C19/Pipeline.v (crash_address) must be re-read against it:\n" + gca)
 wcodes = {n: int(v, 0) for n, v in re.findall(r"(EXCEPTION_ACCESS_VIOLATION|EXCEPTION_IN_PAGE_ERROR)\s*=\s*(0x[0-9a-fA-F]+)(?:u32)?\s*,",
                                               fn_body(errs, r"pub enum ExceptionCodeWindows\s*\{", "ExceptionCodeWindows"))}
 if set(wcodes) != {"EXCEPTION_ACCESS_VIOLATION", "EXCEPTION_IN_PAGE_ERROR"}:
